@@ -465,26 +465,28 @@ theorem rwf_evalStep (C : Ctx) (e : Expr) : Pres Rwf (evalStep C r e) := by
     · split <;> first | exact N (neutral_pure _) | exact N (neutral_fail _)
     · exact N (neutral_fail _)
   | call k name args =>
-    unfold evalStep
-    apply pres_bind Rwf_po (rwf_evalArgs he hs args); intro kw
     cases k with
     | function =>
-      simp only
+      simp only [evalStep]
+      apply pres_bind Rwf_po (rwf_evalArgs he hs args); intro kw
       split
       · exact rwf_invoke he hs _ _ _ _
       · exact N (neutral_fail _)
     | implicit ns =>
-      simp only
+      simp only [evalStep]
+      apply pres_bind Rwf_po (rwf_evalArgs he hs args); intro kw
       split
       · split <;> exact rwf_invoke he hs _ _ _ _
       · exact N (neutral_fail _)
     | classOp ns =>
-      simp only
+      simp only [evalStep]
       split
-      · split <;> exact rwf_invoke he hs _ _ _ _
+      · apply pres_bind Rwf_po (rwf_evalArgs he hs args); intro kw
+        exact rwf_invoke he hs _ _ _ _
       · exact N (neutral_fail _)
     | bridge ns =>
-      simp only
+      simp only [evalStep]
+      apply pres_bind Rwf_po (rwf_evalArgs he hs args); intro kw
       split
       · split <;> exact rwf_invoke he hs _ _ _ _
       · exact N (neutral_fail _)
